@@ -8,6 +8,7 @@ from framework import REPO, ROOT
 
 TIE = ["Nsq.Tie.Life", "Nsq.Tie.TopicDelete", "Nsq.Tie.ChanDelete"]
 PROPS = ["Nsq.Props.C08", "Nsq.Props.C08TopicDelete", "Nsq.Props.C08ChanDelete"]
+PROPS = PROPS + ["Nsq.Props.C08DQ"]  # E9 glue (builder dq2): Channel.Delete at file level on the go-diskqueue model
 HARNESS = ["e5/replay_test.go", "e5/life_test.go", "e5/inflight_test.go", "e5/conc_test.go", "e5/pairs_test.go"]
 
 # hook schedules exhibited in Lean (Props/C08.lean) and replayed on the real code
